@@ -24,7 +24,9 @@ import signal
 
 from engine import dump, traces
 
-LIMIT = 10          # seconds per observed call ("instead of looping")
+LIMIT = 3           # seconds per observed call ("instead of looping"); a normal call takes milliseconds
+MAX_TIMEOUTS = 3    # per worker process: afterwards the worker stops observing (a looping mutant would take hours)
+TIMEOUTS = [0]
 NS = 2              # samples per enumerated case (MC_DepResolve cfg files)
 
 
@@ -177,6 +179,7 @@ def guarded(fn):
 def classify_exception(obs, e):
     from mitxgraders.exceptions import ConfigError
     if isinstance(e, Timeout):
+        TIMEOUTS[0] += 1
         obs['res'], obs['bad'] = 'other', 'timeout'
     elif isinstance(e, ConfigError):
         obs['res'] = 'config_error'
@@ -454,6 +457,8 @@ def replay_states(states, extra):
         c = st['c']
         if c['kind'] != 'case':
             continue
+        if TIMEOUTS[0] >= MAX_TIMEOUTS:
+            break
         out = st['out']
         runs = [('direct', 0, 'tap'), ('direct', 1, 'plain'), ('direct', 2, 'tap'), ('grader', 0, 'plain'),
                 ('grader', 1, 'tap')]
@@ -512,6 +517,8 @@ def replay_num(states, extra):
         c = st['c']
         if c['kind'] != 'num':
             continue
+        if TIMEOUTS[0] >= MAX_TIMEOUTS:
+            break
         out = st['out']
         cfg, m = num_cfg(c, ns)
         for style in ('plain', 'tap'):
@@ -709,6 +716,8 @@ def observe_chunk(cases, extra):
     repo.activate()
     recs = []
     for case in cases:
+        if TIMEOUTS[0] >= MAX_TIMEOUTS:
+            break
         obs = observe(case['cfg'], case['bind'], case['style'])
         recs.append(to_record(case, obs))
     return recs
@@ -785,6 +794,7 @@ def run_traces(ctx, n):
     ctx.evaluations += len(recs)
     bycase = {c['id']: c for c in cases}
     byrec = {r['id']: r for r in recs}
+    cases = [bycase[r['id']] for r in recs]          # (workers stop early after repeated timeouts)
     for c, r in zip(cases, recs):
         ctx.nontrivial.add(('trace', c['bind'], c['shape'], c['variant'], r['res'], len(c['cfg']['vars']) > 4,
                             bool(c['cfg']['heads'])))
